@@ -12,7 +12,7 @@ import ast
 
 from ..cfg import known_falsy, known_truthy
 from ..model import self_attr, unparse, walk_body_shallow
-from .util import (aliases_of, call_name, call_recv, calls_in, chains_in, kwarg, need, node_assign_value, norm,
+from .util import (result_stored, deferred_origins, aliases_of, call_name, call_recv, calls_in, chains_in, kwarg, need, node_assign_value, norm,
                    real_suspension, registrations, returns_deferred, where)
 
 TECHNIQUE = "construction-site kwargs, must-pass-through of the prepare hook, arm exhaustiveness, typestate guards, " \
@@ -142,7 +142,17 @@ def run(ctx):
     starts = [n for n in co.nodes if any(prog.resolve_call(jouter, x) is jas for x in n.calls())]
     need(starts, "join routine is not started from join_and_sync")
     for n in starts:
-        ok = node_assign_value(n, "_rejoin_d") is not None and known_falsy(fo[n.id], "self._rejoin_d") and \
+        # the Deferred of the join is kept in _rejoin_d: by the starting statement itself or by a store every path passes
+        stored = node_assign_value(n, "_rejoin_d") is not None
+        if not stored:
+            the_call = [x for x in n.calls() if prog.resolve_call(jouter, x) is jas][0]
+            for sn in co.nodes:
+                v = node_assign_value(sn, "_rejoin_d")
+                if v is not None and not (isinstance(v, ast.Constant) and v.value is None):
+                    og = deferred_origins(co, sn.id, v) or []
+                    if len(og) == 1 and og[0] is the_call and not co.normal_exits_from(n.id, avoid=[sn.id]):
+                        stored = True
+        ok = stored and known_falsy(fo[n.id], "self._rejoin_d") and \
             known_truthy(fo[n.id], "self._rejoin_needed")
         r.check(ok, "%s#start-join" % jouter.qname, "join started without `_rejoin_needed` and `_rejoin_d` falsy, or not stored",
                 where(jouter, n.stmt), "two join/sync exchanges in flight")
@@ -158,7 +168,8 @@ def run(ctx):
     need(snd, "heartbeat send not found")
     f0 = fh[snd[0].id]
     r.check(("self._stopping", False) in f0 and ("self._rejoin_needed", False) in f0 and known_falsy(f0, "self._heartbeat_request_d")
-            and node_assign_value(snd[0], "_heartbeat_request_d") is not None, "%s#preconditions" % hb.qname,
+            and result_stored(ch, snd[0], [x for x in snd[0].calls() if call_name(x) == "send_heartbeat_request"][0], "_heartbeat_request_d"),
+            "%s#preconditions" % hb.qname,
             "heartbeat can be sent while stopping / rejoining / another heartbeat is in flight", where(hb, snd[0].stmt),
             "heartbeat with a stale generation resets the coordinator's session timer for an evicted member",
             facts=sorted(t for t, pol in f0))
@@ -231,6 +242,8 @@ def run(ctx):
             if call_name(x) in ("cancel", "stop") and isinstance(x.func, ast.Attribute):
                 rv = x.func.value
                 a = self_attr(rv) or (local_src.get(rv.id) if isinstance(rv, ast.Name) else None)
+                if not a and (call_recv(x) or "").startswith("self.") and (call_recv(x) or "").count(".") == 1:
+                    a = call_recv(x)[5:]  # a local that holds what the attribute held (read-then-clear)
                 if a:
                     cancelled.setdefault(a, []).append(n)
     for a, k in sorted(act.items()):
